@@ -3,7 +3,8 @@
 Writer/reader AGREEMENT rules decided from the syntax trees of `_convert_to_json*` / `_convert_from_json*`:
   R1  every HailType subclass overriding one JSON direction overrides the other (same for the `_na` variants;
       a wrapper class that is provably only used on the binary-encoding path is exempt)
-  R2  JSON object keys written == keys read, and per key the same component type converts on both sides
+  R2  JSON object keys written == keys read, and per key the same component type converts on both sides; the member names of an emitted JSON object are
+      literals or field names of the type, never components of the value (a missing component has no member-name form: json.dumps writes "null")
   R3  value objects are rebuilt from the same role they were taken from: wire key K is filled from attribute A of
       the value and fed into constructor parameter P, and P is stored where A reads (Locus, Interval)
   R4  floats: the writer's tokens for non-finite values are exactly strings the reader's `float(...)` parses; finite
@@ -31,6 +32,7 @@ from __future__ import annotations
 import ast
 from typing import Dict, List, Optional, Sequence, Set, Tuple
 
+from engines import c32norm as N
 from engines import c32strdec as SD
 from engines import pyfacts as pf
 from engines import wiresig as W
@@ -66,65 +68,142 @@ TO, FROM, TO_NA, FROM_NA = '_convert_to_json', '_convert_from_json', '_convert_t
 # --------------------------------------------------------------------------------------
 
 
-def _encoding_only_wrapper(ctx: Ctx, m: pf.Module, cname: str) -> Optional[str]:
-    """If every construction of class `cname` is stored into self.<attr> inside a constructor expression, and every load of
-    `.<attr>` in the module only ever receives `_convert_to_encoding` / `_convert_from_encoding`, return a description; else None."""
+JSON_METHODS = (TO, FROM, TO_NA, FROM_NA, '_to_json', '_from_json')
+
+
+def _eff_methods(m: pf.Module, cname: str) -> Dict[str, pf.FuncDef]:
+    """Methods an instance of class `cname` has, looked up through the bases defined in the module (mixins included), HailType itself
+    excluded: a converter inherited from an intermediate base or a mixin is an override of the HailType default like any other."""
+    top = {c.name: c for c in m.tree.body if isinstance(c, ast.ClassDef)}
+    out: Dict[str, pf.FuncDef] = {}
+    seen: Set[str] = set()
+    stack = [cname]
+    while stack:
+        cn = stack.pop(0)
+        if cn in seen or cn not in top or cn == 'HailType':
+            continue
+        seen.add(cn)
+        for k, v in W.methods(top[cn]).items():
+            out.setdefault(k, v)
+        stack += [d for d in (pf.dotted(b) for b in top[cn].bases) if d]
+    return out
+
+
+def _has_subclass(classes: Dict[str, ast.ClassDef], cname: str) -> bool:
+    return any(pf.dotted(b) == cname for c in classes.values() for b in c.bases)
+
+
+def _stmt_of(par: Dict[ast.AST, ast.AST], n: ast.AST) -> Optional[ast.AST]:
+    cur: Optional[ast.AST] = n
+    while cur is not None and not isinstance(cur, ast.stmt):
+        cur = par.get(cur)
+    return cur
+
+
+def _wrapper_usage(m: pf.Module, cname: str) -> Tuple[str, str]:
+    """How is class `cname` used inside the module?
+      ('ordinary', why)       it is not a private wrapper that only lives inside attributes of other types (public name, bound to a module global,
+                              returned / passed around, or never constructed here): an ordinary type, judged like every other
+      ('encoding-only', why)  every construction is stored (directly or inside a constructor expression, possibly through a local) into self.<attr>,
+                              and every load of `.<attr>` only ever receives `_convert_to_encoding` / `_convert_from_encoding`
+      ('json', where)         a value stored that way receives a JSON converter call
+      ('unknown', why)        stored that way, but some use of the attribute is not understood"""
     par = m.parents()
     attrs: Set[str] = set()
     n_cons = 0
+    if not cname.startswith('_'):
+        return 'ordinary', 'public name'
+    for st in m.tree.body:
+        if isinstance(st, (ast.Assign, ast.AnnAssign)) and st.value is not None and any(isinstance(n, ast.Name) and n.id == cname for n in ast.walk(st.value)):
+            return 'ordinary', 'bound to a module-level name'
+
+    def stored_into_self(fn: Optional[pf.FuncDef], stmt: Optional[ast.AST], depth: int = 2) -> Optional[Set[str]]:
+        if isinstance(stmt, ast.Assign) and len(stmt.targets) == 1:
+            t = stmt.targets[0]
+            if isinstance(t, ast.Attribute) and isinstance(t.value, ast.Name) and fn is not None and W.param_names(fn) and t.value.id == W.param_names(fn)[0]:
+                return {t.attr}
+            if isinstance(t, ast.Name) and fn is not None and depth > 0 and len(pf.assignments(fn).get(t.id, [])) == 1:
+                got: Set[str] = set()
+                uses = [n for n in pf.walk_shallow(fn) if isinstance(n, ast.Name) and n.id == t.id and isinstance(n.ctx, ast.Load)]
+                if not uses:
+                    return None
+                for u in uses:
+                    r = stored_into_self(fn, _stmt_of(par, u), depth - 1)
+                    if r is None:
+                        return None
+                    got |= r
+                return got
+        return None
+
     for n in ast.walk(m.tree):
         if isinstance(n, ast.Call) and isinstance(n.func, ast.Name) and n.func.id == cname:
             n_cons += 1
-            cur: ast.AST = n
-            while cur in par and not isinstance(cur, ast.stmt):
-                cur = par[cur]
-            if not (isinstance(cur, ast.Assign) and len(cur.targets) == 1 and isinstance(cur.targets[0], ast.Attribute)
-                    and isinstance(cur.targets[0].value, ast.Name) and cur.targets[0].value.id == 'self'):
-                return None
-            attrs.add(cur.targets[0].attr)
+            got = stored_into_self(m.enclosing_func(n), _stmt_of(par, n))
+            if got is None:
+                return 'ordinary', f'constructed at line {n.lineno} into something other than an attribute of the constructing type'
+            attrs |= got
         elif isinstance(n, ast.Name) and n.id == cname and isinstance(n.ctx, ast.Load):
             p = par.get(n)
             if not (isinstance(p, ast.Call) and p.func is n) and not (isinstance(p, ast.Call) and pf.dotted(p.func) == 'super'):
-                return None  # the class escapes some other way
+                return 'ordinary', f'the class object is used as a value at line {n.lineno}'
     if n_cons == 0:
-        return None
+        return 'ordinary', 'never constructed inside the module'
+    unknown: Optional[str] = None
     for n in ast.walk(m.tree):
         if isinstance(n, ast.Attribute) and n.attr in attrs and isinstance(n.ctx, ast.Load):
-            # climb: .attr(.element_type)*._convert_{to,from}_encoding(...)
+            # climb: .attr(.element_type | .key_type | ...)*.<converter>(...)
             cur2: ast.AST = n
-            ok = False
+            verdict = None
             while True:
                 p = par.get(cur2)
                 if isinstance(p, ast.Attribute) and p.value is cur2:
-                    if p.attr in ('_convert_to_encoding', '_convert_from_encoding'):
-                        pp = par.get(p)
-                        ok = isinstance(pp, ast.Call) and pp.func is p
+                    pp = par.get(p)
+                    if isinstance(pp, ast.Call) and pp.func is p:
+                        if p.attr in ('_convert_to_encoding', '_convert_from_encoding'):
+                            verdict = 'enc'
+                        elif p.attr in JSON_METHODS:
+                            verdict = 'json'
+                        else:
+                            verdict = 'other'
                         break
-                    if p.attr == 'element_type':
-                        cur2 = p
-                        continue
+                    cur2 = p
+                    continue
                 break
-            if not ok:
-                return None
-    return f'constructed {n_cons}x, only into self.{"/".join(sorted(attrs))}, which only ever receives _convert_*_encoding'
+            if verdict == 'json':
+                return 'json', f'line {n.lineno}: `{pf.nsrc(par.get(cur2) if par.get(cur2) is not None else n)[:60]}`'
+            if verdict != 'enc' and unknown is None:
+                fn = m.enclosing_func(n)
+                unknown = f'`{pf.nsrc(_stmt_of(par, n) or n)[:70]}` (line {n.lineno}' + (f', in {fn.name}' if fn is not None else '') + ')'
+    if unknown is not None:
+        return 'unknown', f'{cname} instances live in self.{"/".join(sorted(attrs))}, which is also used in {unknown}'
+    return 'encoding-only', f'constructed {n_cons}x, only into self.{"/".join(sorted(attrs))}, which only ever receives _convert_*_encoding'
 
 
 def _r1(ctx: Ctx, m: pf.Module, classes: Dict[str, ast.ClassDef]):
     for cname, c in classes.items():
-        ms = W.methods(c)
+        ms = _eff_methods(m, cname)
         for a, b in ((TO, FROM), (TO_NA, FROM_NA)):
             ha, hb = a in ms, b in ms
             cons = f'{F}::{cname}::{a}/{b}'
             if ha == hb:
                 ctx.ok('R1', cons, {'overrides': ha}, nontrivial=ha)
                 continue
-            why = _encoding_only_wrapper(ctx, m, cname)
-            if why is not None:
+            have, lack = (a, b) if ha else (b, a)
+            if _has_subclass(classes, cname):
+                # the missing direction may be supplied by every subclass: the class is judged at its (concrete) subclasses, whose effective methods include this one
+                subs = [s_ for s_, sc in classes.items() if any(pf.dotted(b_) == cname for b_ in sc.bases)]
+                ctx.need(all(lack in _eff_methods(m, s_) for s_ in subs) and not any(isinstance(n, ast.Call) and isinstance(n.func, ast.Name) and n.func.id == cname for n in ast.walk(m.tree)),
+                         f'{cname} defines {have} but not {lack} and has subclasses {subs}: cannot tell whether {cname} itself is ever instantiated')
+                ctx.ok('R1', cons, {'abstract': f'never constructed in the module; every subclass {subs} has both directions'}, nontrivial=False)
+                continue
+            kind, why = _wrapper_usage(m, cname)
+            if kind == 'encoding-only':
                 ctx.ok('R1', cons, {'exempt': why})
                 continue
-            have, lack = (a, b) if ha else (b, a)
+            ctx.need(kind != 'unknown', f'{cname} overrides {have} but not {lack}; whether it is only used on the binary-encoding path cannot be established: {why}')
             ctx.bad('R1', cons, f'class {cname} overrides {have} but not {lack}: a value converted by the overridden direction is handled by the '
-                                f'base-class identity conversion in the other direction and does not come back equal', m.path, ms[have].lineno)
+                                f'base-class identity conversion in the other direction and does not come back equal' + (f' (the wrapper is used on the JSON path: {why})' if kind == 'json' else ''),
+                    m.path, ms[have].lineno)
 
 
 # --------------------------------------------------------------------------------------
@@ -132,11 +211,32 @@ def _r1(ctx: Ctx, m: pf.Module, classes: Dict[str, ast.ClassDef]):
 # --------------------------------------------------------------------------------------
 
 
+def _mutated_after_def(fn: pf.FuncDef, name: str) -> Optional[ast.AST]:
+    """A statement that changes the object bound to `name` after its creation (item store, mutator call, augmented assignment), if any."""
+    for n in pf.walk_shallow(fn):
+        if isinstance(n, (ast.Assign, ast.AugAssign, ast.AnnAssign, ast.Delete)):
+            tgts = n.targets if isinstance(n, (ast.Assign, ast.Delete)) else [n.target]
+            for t in tgts:
+                for tt in (t.elts if isinstance(t, (ast.Tuple, ast.List)) else [t]):
+                    if isinstance(tt, (ast.Subscript, ast.Attribute)) and isinstance(tt.value, ast.Name) and tt.value.id == name:
+                        return n
+                    if isinstance(n, ast.AugAssign) and isinstance(tt, ast.Name) and tt.id == name:
+                        return n
+        if isinstance(n, ast.Call) and isinstance(n.func, ast.Attribute) and isinstance(n.func.value, ast.Name) and n.func.value.id == name and n.func.attr in W.MUTATORS:
+            return n
+    return None
+
+
 def _returned_expr(fn: pf.FuncDef) -> List[ast.expr]:
-    """Expressions a function may return: `return e` with a returned local followed to its defining expression(s)."""
+    """Expressions a function may return: `return e` with a returned local followed to its defining expression(s).  Declines when the returned
+    object is completed after its creation (`d = {}; d['k'] = ...; return d`): its defining expression is then not what is returned."""
     outs = []
     for n in pf.walk_shallow(fn):
         if isinstance(n, ast.Return) and n.value is not None:
+            if isinstance(n.value, ast.Name) and n.value.id not in W.param_names(fn):
+                mut = _mutated_after_def(fn, n.value.id)
+                if mut is not None:
+                    raise AnalysisError(f'{F}::{fn.name} (line {mut.lineno}): the returned object `{n.value.id}` is built up by `{pf.nsrc(mut)[:60]}` (unrecognised idiom)')
             r = pf.resolve_expr(fn, n.value)
             if isinstance(r, ast.Name) and r.id not in W.param_names(fn):
                 ds = [d for d in pf.assignments(fn).get(r.id, []) if isinstance(d, ast.expr)]
@@ -163,56 +263,243 @@ def _conv_call(e: ast.AST, names: Tuple[str, ...]) -> Optional[ast.Call]:
     return None
 
 
-def _writer_key_table(fn: pf.FuncDef) -> Optional[Tuple[Dict[str, Tuple[Optional[str], ast.expr]], ast.Dict]]:
-    """Dict literal returned (possibly as the element of a list comprehension): key -> (component receiver text | None, raw value expr)."""
+def _dict_display(e: ast.AST) -> Optional[List[Tuple[Optional[ast.expr], ast.expr]]]:
+    """(key, value) pairs of `{...}` or `dict(k=v, ...)`; key None for a ** entry."""
+    if isinstance(e, ast.Dict):
+        return list(zip(e.keys, e.values))
+    if isinstance(e, ast.Call) and isinstance(e.func, ast.Name) and e.func.id == 'dict' and not e.args and e.keywords:
+        return [(ast.copy_location(ast.Constant(value=k.arg), k.value) if k.arg is not None else None, k.value) for k in e.keywords]
+    return None
+
+
+def _writer_key_table(fn: pf.FuncDef) -> Optional[Tuple[Dict[str, Tuple[Optional[ast.expr], ast.expr]], ast.AST]]:
+    """Dict display returned (possibly as the element of a list comprehension): key -> (component receiver | None, raw value expr)."""
     for r in _returned_expr(fn):
         d = r
         if isinstance(d, ast.ListComp):
             d = d.elt
-        if isinstance(d, ast.Dict):
-            tab: Dict[str, Tuple[Optional[str], ast.expr]] = {}
-            for k, v in zip(d.keys, d.values):
+        pairs = _dict_display(d)
+        if pairs is not None:
+            tab: Dict[str, Tuple[Optional[ast.expr], ast.expr]] = {}
+            for k, v in pairs:
                 if not (isinstance(k, ast.Constant) and isinstance(k.value, str)):
                     raise AnalysisError(f'{F}::{fn.name}: JSON object with a non-literal key `{pf.nsrc(k) if k else "**"}`')
+                if k.value in tab:
+                    raise AnalysisError(f'{F}::{fn.name}: JSON object lists key {k.value!r} twice')
                 c = _conv_call(v, (TO, TO_NA))
                 if c is not None:
                     if len(c.args) != 1:
                         raise AnalysisError(f'{F}::{fn.name}: converter call with {len(c.args)} arguments')
-                    tab[k.value] = (pf.nsrc(c.func.value), c.args[0])
+                    tab[k.value] = (c.func.value, c.args[0])
                 else:
                     tab[k.value] = (None, v)
             return tab, d
     return None
 
 
-def _reader_key_uses(fn: pf.FuncDef, par: Dict[ast.AST, ast.AST]) -> Dict[str, List[Tuple[Optional[str], ast.AST]]]:
-    """key -> [(component receiver text | None, outermost expression carrying the value)] for every `<json>['key']` in the reader, where
-    <json> is the JSON parameter or a comprehension variable ranging over it."""
+def _iter_bindings(fn: pf.FuncDef) -> List[Tuple[ast.AST, ast.AST, ast.AST]]:
+    """(target, iterable, node) of every for loop / comprehension generator of fn"""
+    out = []
+    for n in ast.walk(fn):
+        if isinstance(n, (ast.For, ast.AsyncFor)):
+            out.append((n.target, n.iter, n))
+        elif isinstance(n, ast.comprehension):
+            out.append((n.target, n.iter, n))
+    return out
+
+
+def _reader_key_uses(fn: pf.FuncDef, par: Dict[ast.AST, ast.AST]) -> Tuple[Dict[str, List[Tuple[Optional[ast.expr], ast.AST]]], Tuple[Optional[str], Set[str]]]:
+    """(key -> [(component receiver | None, outermost expression carrying the value)], first use of the JSON value that is not understood).
+    The JSON value is the second parameter, or a loop / comprehension variable ranging over it; understood uses are `<json>['key']`, `<json>.get('key')`,
+    iteration, `is None` tests, truth tests and len().  Anything else (the object handed to a helper, a computed key, an alias) means the set of keys
+    the reader consults is not known."""
     ps = W.param_names(fn)
     x = ps[1]
     json_names = {x}
+    grew = True
+    while grew:
+        grew = False
+        for tgt, it, _ in _iter_bindings(fn):
+            if isinstance(it, ast.Name) and it.id in json_names and isinstance(tgt, ast.Name) and tgt.id not in json_names:
+                json_names.add(tgt.id)
+                grew = True
+    out: Dict[str, List[Tuple[Optional[ast.expr], ast.AST]]] = {}
+    unknown: Optional[str] = None
+    soft: Set[str] = set()
+    for nm in json_names - {x}:
+        if len(pf.assignments(fn).get(nm, [])) != 1:
+            unknown = unknown or f'`{nm}` is bound more than once'
     for n in ast.walk(fn):
-        if isinstance(n, ast.comprehension) and isinstance(n.iter, ast.Name) and n.iter.id == x and isinstance(n.target, ast.Name):
-            json_names.add(n.target.id)
-    out: Dict[str, List[Tuple[Optional[str], ast.AST]]] = {}
-    for n in ast.walk(fn):
-        if isinstance(n, ast.Subscript) and isinstance(n.value, ast.Name) and n.value.id in json_names:
-            if not (isinstance(n.slice, ast.Constant) and isinstance(n.slice.value, str)):
-                continue
-            p = par.get(n)
-            c = _conv_call(p, (FROM, FROM_NA)) if p is not None else None
-            if c is not None and c.args and c.args[0] is n:
-                out.setdefault(n.slice.value, []).append((pf.nsrc(c.func.value), c))
+        if not (isinstance(n, ast.Name) and n.id in json_names):
+            continue
+        if not isinstance(n.ctx, ast.Load):
+            continue
+        p = par.get(n)
+        use: Optional[ast.AST] = None
+        key: Optional[str] = None
+        if isinstance(p, (ast.comprehension, ast.For, ast.AsyncFor)) and p.iter is n:
+            continue
+        if isinstance(p, ast.Subscript) and p.value is n and isinstance(p.ctx, ast.Load) and isinstance(p.slice, ast.Constant) and isinstance(p.slice.value, str):
+            use, key = p, p.slice.value
+        elif isinstance(p, ast.Attribute) and p.value is n and p.attr == 'get' and isinstance(par.get(p), ast.Call) and par[p].func is p and 1 <= len(par[p].args) <= 2 \
+                and isinstance(par[p].args[0], ast.Constant) and isinstance(par[p].args[0].value, str) and not par[p].keywords:
+            use, key = par[p], par[p].args[0].value
+            soft.add(key)   # a lookup that tolerates the absence of the key
+        elif isinstance(p, ast.Compare) and len(p.ops) == 1 and isinstance(p.ops[0], (ast.Is, ast.IsNot)) and isinstance(p.comparators[0], ast.Constant) and p.comparators[0].value is None:
+            continue
+        elif isinstance(p, ast.Call) and pf.dotted(p.func) == 'len' and len(p.args) == 1:
+            continue
+        elif isinstance(p, (ast.If, ast.IfExp, ast.While)) and p.test is n or (isinstance(p, ast.UnaryOp) and isinstance(p.op, ast.Not)):
+            continue
+        if use is None:
+            unknown = unknown or f'`{pf.nsrc(p if p is not None else n)[:60]}` (line {n.lineno})'
+            continue
+        pu = par.get(use)
+        c = _conv_call(pu, (FROM, FROM_NA)) if pu is not None else None
+        if c is not None and c.args and c.args[0] is use:
+            out.setdefault(key, []).append((c.func.value, c))
+        else:
+            out.setdefault(key, []).append((None, use))
+            if isinstance(pu, (ast.Assign, ast.AnnAssign, ast.NamedExpr, ast.AugAssign)):
+                # the raw value goes into a variable (one that is assigned more than once, or the normal form would have substituted it): what happens to it is not followed
+                unknown = unknown or f'`{pf.nsrc(pu)[:60]}` (line {n.lineno})'
+    return out, (unknown, soft)
+
+
+def _canon_recv(eff: Dict[str, pf.FuncDef], e: Optional[ast.AST]) -> Optional[str]:
+    """`self.<attr>` with a plain property (`return self._x`) replaced by the attribute it returns; None for anything else (not comparable by text)."""
+    if e is None:
+        return None
+    if isinstance(e, ast.Attribute) and isinstance(e.value, ast.Name) and e.value.id == 'self':
+        fn = eff.get(e.attr)
+        if fn is not None and 'property' in pf.decorator_names(fn):
+            b = W.body_wo_doc(fn)
+            if len(b) == 1 and isinstance(b[0], ast.Return) and isinstance(b[0].value, ast.Attribute) and isinstance(b[0].value.value, ast.Name) and b[0].value.value.id == W.param_names(fn)[0]:
+                return f'self.{b[0].value.attr}'
+            return None
+        if fn is not None:
+            return None
+        return f'self.{e.attr}'
+    return None
+
+
+FIELD_ITEMS = ('self.items()', 'self._field_types.items()')
+FIELD_NAMES = ('self._field_types', 'self.keys()', 'self._field_types.keys()', 'self.fields', 'self._fields', 'self')
+
+
+def _binder_of(fn: pf.FuncDef, par: Dict[ast.AST, ast.AST], node: ast.AST, name: str) -> Optional[Tuple[ast.AST, ast.AST]]:
+    """(target, iterable) of the innermost enclosing loop / comprehension that binds `name`"""
+    cur: Optional[ast.AST] = node
+    while cur is not None and cur is not fn:
+        cur = par.get(cur)
+        gens: List[Tuple[ast.AST, ast.AST]] = []
+        if isinstance(cur, (ast.DictComp, ast.ListComp, ast.GeneratorExp, ast.SetComp)):
+            gens = [(g.target, g.iter) for g in cur.generators]
+        elif isinstance(cur, (ast.For, ast.AsyncFor)):
+            gens = [(cur.target, cur.iter)]
+        for tgt, it in reversed(gens):
+            if any(isinstance(x_, ast.Name) and x_.id == name for x_ in ast.walk(tgt)):
+                return tgt, it
+    return None
+
+
+def _field_name_key(fn: pf.FuncDef, par: Dict[ast.AST, ast.AST], node: ast.AST, key: Optional[ast.AST]) -> Optional[bool]:
+    """Is `key` (used at `node`) the field NAME of an iteration over the type's field table?  True / False (it is another component of such an
+    iteration) / None (not decided)."""
+    if not isinstance(key, ast.Name):
+        return None
+    b = _binder_of(fn, par, node, key.id)
+    if b is None:
+        return None
+    tgt, it = b
+    its = pf.nsrc(it)
+    if its in FIELD_ITEMS and isinstance(tgt, ast.Tuple) and len(tgt.elts) == 2 and all(isinstance(e_, ast.Name) for e_ in tgt.elts):
+        return tgt.elts[0].id == key.id
+    if its in FIELD_NAMES and isinstance(tgt, ast.Name):
+        return tgt.id == key.id
+    return None
+
+
+def _value_bound_names(fn: pf.FuncDef, x: str) -> Set[str]:
+    """names bound by a loop / comprehension that ranges over the converted value (or over something computed from it)"""
+    taint = {x}
+    grew = True
+    while grew:
+        grew = False
+        for tgt, it, _ in _iter_bindings(fn):
+            if any(isinstance(n, ast.Name) and n.id in taint for n in ast.walk(it)):
+                for n in ast.walk(tgt):
+                    if isinstance(n, ast.Name) and n.id not in taint:
+                        taint.add(n.id)
+                        grew = True
+    return taint - {x}
+
+
+def _r2_member_names(ctx: Ctx, m: pf.Module, classes: Dict[str, ast.ClassDef]) -> None:
+    """Member names of the JSON objects a writer emits are literals or field names of the type - never components of the value: a component may be
+    missing, json.dumps renders a None member name as the string "null", and the reader gets a different key back (or two entries collapse)."""
+    par = m.parents()
+    for cname in classes:
+        ms = _eff_methods(m, cname)
+        if TO not in ms:
+            continue
+        wfn = ms[TO]
+        x = W.param_names(wfn)[1] if len(W.param_names(wfn)) > 1 else None
+        if x is None:
+            continue
+        bound = _value_bound_names(wfn, x)
+        try:
+            rets = _returned_expr(wfn)
+        except AnalysisError:
+            continue   # reported by the rule that needs the returned expression
+        for r in rets:
+            d = r.elt if isinstance(r, (ast.ListComp, ast.GeneratorExp)) else r
+            keys: List[Optional[ast.expr]] = []
+            if isinstance(d, ast.DictComp):
+                keys = [d.key]
             else:
-                out.setdefault(n.slice.value, []).append((None, n))
-    return out
+                pairs = _dict_display(d)
+                if pairs is None:
+                    continue
+                keys = [k for k, _ in pairs]
+            cons = f'{F}::{cname}.{TO}::object member names'
+            verdicts = []
+            for k in keys:
+                if isinstance(k, ast.Constant) and isinstance(k.value, str):
+                    verdicts.append(('ok', 'literal'))
+                    continue
+                if k is None:
+                    verdicts.append(('unknown', '** entry'))
+                    continue
+                if _field_name_key(wfn, par, k, k) is True:
+                    verdicts.append(('ok', 'field name'))
+                    continue
+                core = k
+                c = _conv_call(core, (TO, TO_NA))
+                if c is not None and len(c.args) == 1:
+                    core = c.args[0]
+                if isinstance(core, ast.Name) and core.id in bound:
+                    verdicts.append(('bad', pf.nsrc(k)))
+                elif isinstance(core, ast.Subscript) and isinstance(core.value, ast.Name) and core.value.id in bound | {x}:
+                    verdicts.append(('bad', pf.nsrc(k)))
+                else:
+                    verdicts.append(('unknown', pf.nsrc(k)))
+            bads = [t for v, t in verdicts if v == 'bad']
+            if bads:
+                ctx.bad('R2', cons, f'{cname}.{TO} emits a JSON object whose member names are components of the value (`{bads[0]}`): a member name cannot be null - json.dumps writes a '
+                                    f'missing (None) one as the string "null", which reads back as the text \'null\' (and collides with a real key of that spelling). '
+                                    f'Counter-example: {{None: 7, \'a\': 1}} -> {{"null": 7, "a": 1}} -> {{\'null\': 7, \'a\': 1}}', m.path, d.lineno)
+                continue
+            unk = [t for v, t in verdicts if v == 'unknown']
+            ctx.need(not unk, f'{F}::{cname}.{TO} (line {d.lineno}): JSON object member name `{unk[0] if unk else ""}` is neither a literal, a field name of the type nor a component of the value')
+            ctx.ok('R2', cons, {'member_names': sorted({t for _, t in verdicts})})
 
 
 def _r2_r3(ctx: Ctx, m: pf.Module, classes: Dict[str, ast.ClassDef]) -> int:
     par = m.parents()
     n_tables = 0
     for cname, c in classes.items():
-        ms = W.methods(c)
+        ms = _eff_methods(m, cname)
         if TO not in ms or FROM not in ms:
             continue
         wfn, rfn = ms[TO], ms[FROM]
@@ -224,12 +511,8 @@ def _r2_r3(ctx: Ctx, m: pf.Module, classes: Dict[str, ast.ClassDef]) -> int:
             dc = [r for r in rets if isinstance(r, ast.DictComp)]
             if not dc:
                 continue
-            ctx.need(len(dc) == 1 and len(dc[0].generators) == 1, f'{cname}.{TO}: unrecognised dict comprehension')
-            g = dc[0].generators[0]
-            ctx.need(isinstance(dc[0].key, ast.Name) and isinstance(g.target, ast.Tuple) and len(g.target.elts) == 2
-                     and isinstance(g.target.elts[0], ast.Name) and g.target.elts[0].id == dc[0].key.id,
-                     f'{cname}.{TO}: dict comprehension is not keyed by the field name of an (name, type) iteration')
-            ctx.need(pf.nsrc(g.iter) in ('self.items()', 'self._field_types.items()'), f'{cname}.{TO}: iterates `{pf.nsrc(g.iter)}`, not the field table')
+            ctx.need(len(dc) == 1 and len(dc[0].generators) == 1 and not dc[0].generators[0].ifs, f'{cname}.{TO}: unrecognised dict comprehension')
+            ctx.need(_field_name_key(wfn, par, dc[0].key, dc[0].key) is True, f'{cname}.{TO}: dict comprehension is not keyed by the field name of an iteration over the field table')
             # reader: every x.get(K)/x[K] uses the name variable of an iteration over the same field table
             x = W.param_names(rfn)[1]
             uses = []
@@ -241,22 +524,9 @@ def _r2_r3(ctx: Ctx, m: pf.Module, classes: Dict[str, ast.ClassDef]) -> int:
             ctx.need(len(uses) >= 1, f'{cname}.{FROM}: the JSON object is never indexed')
             bad = None
             for node, key in uses:
-                comp = None
-                cur: ast.AST = node
-                while cur in par:
-                    cur = par[cur]
-                    if isinstance(cur, (ast.DictComp, ast.ListComp, ast.GeneratorExp, ast.SetComp)):
-                        comp = cur
-                        break
-                g0 = comp.generators[0] if comp is not None and len(comp.generators) == 1 else None
-                ok = (isinstance(key, ast.Name) and g0 is not None
-                      and pf.nsrc(g0.iter) in ('self.items()', 'self._field_types.items()')
-                      and isinstance(g0.target, ast.Tuple) and isinstance(g0.target.elts[0], ast.Name)
-                      and g0.target.elts[0].id == key.id)
-                # iteration over the field names alone
-                ok = ok or (isinstance(key, ast.Name) and g0 is not None and isinstance(g0.target, ast.Name) and g0.target.id == key.id
-                            and pf.nsrc(g0.iter) in ('self._field_types', 'self.keys()', 'self._field_types.keys()', 'self.fields', 'self._fields', 'self'))
-                if not ok:
+                v = _field_name_key(rfn, par, node, key)
+                ctx.need(v is not None, f'{cname}.{FROM}: the JSON object is indexed by `{pf.nsrc(key) if key is not None else ""}`, which is not a variable of an iteration over the field table')
+                if v is False:
                     bad = node
             ctx.check(bad is None, 'R2', cons, f'writer keys the object by field name over the field table, reader indexes it by `{pf.nsrc(bad) if bad is not None else ""}` '
                       f'which is not the field name of the same iteration: fields are looked up under different keys than written', m.path, rfn.lineno,
@@ -264,10 +534,15 @@ def _r2_r3(ctx: Ctx, m: pf.Module, classes: Dict[str, ast.ClassDef]) -> int:
             n_tables += 1
             continue
         wtab, wdict = wt
-        ruses = _reader_key_uses(rfn, par)
+        ruses, (unknown, soft) = _reader_key_uses(rfn, par)
         n_tables += 1
         wk, rk = set(wtab), set(ruses)
         if wk != rk:
+            # a difference of the key sets is established only if every use of the JSON value is understood, and a key that is read without being
+            # written fails only if the lookup does not tolerate its absence
+            ctx.need(unknown is None, f'{cname}.{FROM}: keys written {sorted(wk)}, keys read by literal subscripts {sorted(rk)}, and the JSON value is also used in {unknown}: '
+                                      f'the set of keys the reader consults is not known')
+            ctx.need(not ((rk - wk) & soft) or (wk - rk), f'{cname}.{FROM}: {sorted((rk - wk) & soft)} is looked up with .get() but never written (reads as absent; not decided)')
             ctx.bad('R2', cons, f'keys written {sorted(wk)} != keys read {sorted(rk)}: ' +
                     (f'{sorted(rk - wk)} is read but never written (KeyError / None on read-back); ' if rk - wk else '') +
                     (f'{sorted(wk - rk)} is written but never read (component lost)' if wk - rk else ''), m.path, rfn.lineno)
@@ -276,14 +551,40 @@ def _r2_r3(ctx: Ctx, m: pf.Module, classes: Dict[str, ast.ClassDef]) -> int:
         # per key: same component converter
         for k in sorted(wk & rk):
             wrecv = wtab[k][0]
-            rrecvs = {r for r, _ in ruses[k]}
             ck = f'{F}::{cname}::json key {k!r} component'
-            if len(rrecvs) != 1:
-                ctx.bad('R2', ck, f'key {k!r} is read through different converters {sorted(map(str, rrecvs))}', m.path, rfn.lineno)
+            rr = ruses[k]
+            wc = _canon_recv(ms, wrecv)
+            wtxt = pf.nsrc(wrecv) if wrecv is not None else None
+            rtxts = sorted({pf.nsrc(r) if r is not None else 'no converter' for r, _ in rr})
+
+            def same(r: Optional[ast.expr]) -> Optional[bool]:
+                if wrecv is None and r is None:
+                    return True
+                if wrecv is None or r is None:
+                    return False   # one side converts the component, the other passes it through
+                if pf.nsrc(r) == wtxt:
+                    return True
+                rc_ = _canon_recv(ms, r)
+                if wc is not None and rc_ is not None:
+                    return wc == rc_
+                return None
+
+            verdicts = [same(r) for r, _ in rr]
+            if all(v is True for v in verdicts):
+                ctx.ok('R2', ck, {'component': wc or wtxt})
                 continue
-            rrecv = next(iter(rrecvs))
-            ctx.check(wrecv == rrecv, 'R2', ck, f'key {k!r} is written through `{wrecv}` but read back through `{rrecv}`: the component is '
-                      f'converted by one type and parsed by another', m.path, ruses[k][0][1].lineno, detail={'component': wrecv})
+            if any(v is True for v in verdicts) and all(v is True or (v is False and r is None) for v, (r, _) in zip(verdicts, rr)):
+                # parsed through the matching converter; further raw reads of the same key (a memo key, a log message) are not conversions
+                ctx.ok('R2', ck, {'component': wc or wtxt, 'additional_raw_reads': sum(1 for v in verdicts if v is False)})
+                continue
+            ctx.need(unknown is None and not any(v is None for v in verdicts),
+                     f'{cname}: key {k!r} is written through `{wtxt}` and read through {rtxts}: receivers are not plain attributes of the type (or the raw value is '
+                     f'processed further), cannot compare them')
+            if len(set(rtxts)) != 1:
+                ctx.bad('R2', ck, f'key {k!r} is read through different converters {rtxts}', m.path, rfn.lineno)
+                continue
+            ctx.bad('R2', ck, f'key {k!r} is written through `{wtxt}` but read back through `{rtxts[0]}`: the component is '
+                    f'converted by one type and parsed by another', m.path, rr[0][1].lineno, {'component': wtxt})
         # R3 roles: writer key -> attribute of the value; reader key -> constructor parameter
         ctor = None
         for r in _returned_expr(rfn):
@@ -331,8 +632,10 @@ FLOAT_PARSES = {s + w for s in ('', '+', '-') for w in ('nan', 'inf', 'infinity'
 def _r4(ctx: Ctx, m: pf.Module, classes: Dict[str, ast.ClassDef]):
     for cname in ('_tfloat32', '_tfloat64'):
         ctx.need(cname in classes, f'anchor vanished: class {cname}')
-        ms = W.methods(classes[cname])
+        ms = _eff_methods(m, cname)
         cons = f'{F}::{cname}::non-finite tokens'
+        # neither direction: the base-class identity on both sides; what json.dumps / json.loads make of NaN is outside this analysis
+        ctx.need(TO in ms or FROM in ms, f'{cname} has neither {TO} nor {FROM}: the wire form of non-finite floats is then decided by the json module alone (not modelled)')
         if TO not in ms or FROM not in ms:
             # R1 reports the missing half; without both there is nothing to compare
             ctx.bad('R4', cons, f'{cname} lacks {TO if TO not in ms else FROM}: NaN/inf written as strings are not turned back into floats '
@@ -389,40 +692,89 @@ def _r4(ctx: Ctx, m: pf.Module, classes: Dict[str, ast.ClassDef]):
 # --------------------------------------------------------------------------------------
 
 
-def _is_none_passthrough(fn: pf.FuncDef, delegate: str) -> bool:
-    """`if x is None: return x|None else: return self.<delegate>(x, ...)`"""
+def _none_test(t: ast.AST, x: str) -> Optional[bool]:
+    """polarity of a test that is exactly `x is None` (True) / `x is not None` (False); None for anything else"""
+    neg = False
+    while isinstance(t, ast.UnaryOp) and isinstance(t.op, ast.Not):
+        t, neg = t.operand, not neg
+    if isinstance(t, ast.Compare) and len(t.ops) == 1 and isinstance(t.left, ast.Name) and t.left.id == x and isinstance(t.comparators[0], ast.Constant) and t.comparators[0].value is None:
+        if isinstance(t.ops[0], (ast.Is, ast.Eq)):
+            return not neg
+        if isinstance(t.ops[0], (ast.IsNot, ast.NotEq)):
+            return neg
+    return None
+
+
+def _na_wrapper(fn: pf.FuncDef, delegate: str) -> Tuple[Optional[bool], str]:
+    """Is fn `None -> None, anything else -> self.<delegate>(x, ...)`?  (True, '') | (False, what is wrong - a recognised shape that breaks it) |
+    (None, why the shape is not recognised).  fn is in normal form (guards and conditional expressions are if/else statements)."""
     b = W.body_wo_doc(fn)
     ps = W.param_names(fn)
-    if len(b) not in (1, 2) or not isinstance(b[0], ast.If) or len(ps) < 2:
-        return False
-    x = ps[1]
-    iff = b[0]
-    if pf.nsrc(iff.test) != f'{x} is None':
-        return False
-    if len(iff.body) != 1 or not isinstance(iff.body[0], ast.Return):
-        return False
-    rv = iff.body[0].value
-    if not (rv is None or (isinstance(rv, ast.Constant) and rv.value is None) or (isinstance(rv, ast.Name) and rv.id == x)):
-        return False
-    rest = iff.orelse if iff.orelse else b[1:]
-    if len(rest) != 1 or not isinstance(rest[0], ast.Return):
-        return False
-    c = rest[0].value
-    return (isinstance(c, ast.Call) and pf.dotted(c.func) == f'self.{delegate}' and len(c.args) >= 1 and pf.nsrc(c.args[0]) == x)
+    if len(ps) < 2:
+        return None, 'no value parameter'
+    selfname, x = ps[0], ps[1]
+
+    def delegates(e: Optional[ast.AST]) -> bool:
+        return (isinstance(e, ast.Call) and pf.dotted(e.func) == f'{selfname}.{delegate}' and len(e.args) >= 1 and isinstance(e.args[0], ast.Name) and e.args[0].id == x
+                and not any(isinstance(a, ast.Starred) for a in e.args))
+
+    def none_value(e: Optional[ast.AST]) -> bool:
+        return e is None or (isinstance(e, ast.Constant) and e.value is None) or (isinstance(e, ast.Name) and e.id == x)
+
+    if len(b) == 1 and isinstance(b[0], ast.Return):
+        if delegates(b[0].value):
+            return False, f'calls {selfname}.{delegate}({x}) without testing `{x} is None`: a missing value reaches the type-specific converter'
+        return None, f'returns `{pf.nsrc(b[0].value)[:60]}`'
+    if len(b) == 1 and isinstance(b[0], ast.If) and len(b[0].body) == 1 and len(b[0].orelse) == 1 and isinstance(b[0].body[0], ast.Return) and isinstance(b[0].orelse[0], ast.Return):
+        pol = _none_test(b[0].test, x)
+        if pol is None:
+            return None, f'branches on `{pf.nsrc(b[0].test)[:60]}`'
+        none_ret, other_ret = (b[0].body[0].value, b[0].orelse[0].value) if pol else (b[0].orelse[0].value, b[0].body[0].value)
+        if not delegates(other_ret):
+            return None, f'the non-missing branch returns `{pf.nsrc(other_ret)[:60] if other_ret is not None else None}`'
+        if none_value(none_ret):
+            return True, ''
+        if isinstance(none_ret, ast.Constant):
+            return False, f'maps a missing value to the constant {none_ret.value!r} instead of None'
+        return None, f'the missing branch returns `{pf.nsrc(none_ret)[:60]}`'
+    return None, 'body is not a single if/else of returns'
+
+
+def _flag_param(fn: pf.FuncDef) -> Optional[str]:
+    ps = W.param_names(fn)
+    if len(ps) >= 3:
+        return ps[2]
+    kw = [a.arg for a in fn.args.kwonlyargs]
+    return kw[0] if len(kw) == 1 else None
+
+
+def _flag_arg(call: ast.Call) -> Tuple[Optional[ast.AST], bool]:
+    """(expression passed as the freeze flag | None, True when the call has * / ** arguments that may carry it)"""
+    flag = call.args[1] if len(call.args) >= 2 else None
+    star = any(isinstance(a, ast.Starred) for a in call.args) or any(k.arg is None for k in call.keywords)
+    for kw in call.keywords:
+        if kw.arg == '_should_freeze':
+            flag = kw.value
+    return flag, star
 
 
 def _r5(ctx: Ctx, m: pf.Module, classes: Dict[str, ast.ClassDef]):
     base = W.methods(m.cls('HailType'))
     for na, plain in ((TO_NA, TO), (FROM_NA, FROM)):
         ctx.need(na in base and plain in base, f'anchor vanished: HailType.{na}/{plain}')
-        ctx.check(_is_none_passthrough(base[na], plain), 'R5', f'{F}::HailType.{na}',
-                  f'HailType.{na} is not `None -> None, else self.{plain}(x)`: missing values do not round-trip through null', m.path, base[na].lineno)
+        okv, why = _na_wrapper(base[na], plain)
+        ctx.need(okv is not None, f'{F}::HailType.{na}: not recognised as `None -> None, else self.{plain}(x)` ({why})')
+        ctx.check(okv, 'R5', f'{F}::HailType.{na}',
+                  f'HailType.{na} is not `None -> None, else self.{plain}(x)` - it {why}: missing values do not round-trip through null', m.path, base[na].lineno)
     # wrappers _to_json/_from_json use the _na entry points
-    for nm, inner, lib in (('_to_json', TO_NA, 'json.dumps'), ('_from_json', FROM_NA, 'json.loads')):
+    for nm, inner, plain, lib in (('_to_json', TO_NA, TO, 'json.dumps'), ('_from_json', FROM_NA, FROM, 'json.loads')):
         ctx.need(nm in base, f'anchor vanished: HailType.{nm}')
         calls = [pf.dotted(c.func) for c in pf.calls_in(base[nm])]
-        ctx.check(f'self.{inner}' in calls and lib in calls, 'R5', f'{F}::HailType.{nm}',
-                  f'HailType.{nm} does not go through self.{inner} and {lib} (calls: {calls}): a top-level missing value is not mapped to/from null',
+        good = f'self.{inner}' in calls and lib in calls
+        # established: the entry point goes through the type-specific converter directly, so a top-level None reaches it
+        ctx.need(good or (f'self.{plain}' in calls and f'self.{inner}' not in calls), f'{F}::HailType.{nm}: does not recognisably go through self.{inner} and {lib} (calls: {calls})')
+        ctx.check(good, 'R5', f'{F}::HailType.{nm}',
+                  f'HailType.{nm} calls self.{plain} instead of self.{inner} (calls: {calls}): a top-level missing value is not mapped to/from null',
                   m.path, base[nm].lineno)
 
     for cname, c in classes.items():
@@ -431,6 +783,7 @@ def _r5(ctx: Ctx, m: pf.Module, classes: Dict[str, ast.ClassDef]):
             if meth not in ms:
                 continue
             fn = ms[meth]
+            own_flag = _flag_param(fn)
             for call in pf.calls_in(fn):
                 f = call.func
                 if not (isinstance(f, ast.Attribute) and f.attr in (plain, na)):
@@ -447,35 +800,34 @@ def _r5(ctx: Ctx, m: pf.Module, classes: Dict[str, ast.ClassDef]):
                           f'(e.g. float(None) TypeError)', m.path, call.lineno)
                 # freeze propagation on the reader side
                 if plain == FROM:
-                    flag = None
-                    if len(call.args) >= 2:
-                        flag = call.args[1]
-                    for kw in call.keywords:
-                        if kw.arg == '_should_freeze':
-                            flag = kw.value
+                    flag, star = _flag_arg(call)
                     fcons = f'{F}::{cname}.{meth}::{recv}.{f.attr}::freeze flag'
                     txt = pf.nsrc(flag) if flag is not None else None
-                    ok = txt in ('_should_freeze', 'True')
-                    ctx.check(ok, 'R5', fcons, f'recursive parse `{pf.nsrc(call)[:90]}` does not forward the freeze flag (passes {txt}): inside a set element or '
+                    forwarded = (isinstance(flag, ast.Name) and own_flag is not None and flag.id == own_flag) or (isinstance(flag, ast.Constant) and flag.value is True)
+                    dropped = (flag is None and not star) or (isinstance(flag, ast.Constant) and not flag.value)
+                    ctx.need(forwarded or dropped, f'{F}::{cname}.{meth} (line {call.lineno}): the freeze flag handed to `{pf.nsrc(call)[:80]}` is `{txt}`, neither the method\'s own flag nor a constant')
+                    ctx.check(forwarded, 'R5', fcons, f'recursive parse `{pf.nsrc(call)[:90]}` does not forward the freeze flag (passes {txt}): inside a set element or '
                               f'dict key the nested list/dict stays unhashable and building the enclosing set/dict raises TypeError', m.path, call.lineno)
     # hashed positions are frozen unconditionally
-    for cname, which in (('tset', 'self.element_type'), ('tdict', 'self.key_type')):
+    for cname, which in (('tset', 'element_type'), ('tdict', 'key_type')):
         ctx.need(cname in classes, f'anchor vanished: class {cname}')
-        ms = W.methods(classes[cname])
+        ms = _eff_methods(m, cname)
         ctx.need(FROM in ms, f'anchor vanished: {cname}.{FROM}')
+        want = _canon_recv(ms, ast.Attribute(value=ast.Name(id='self', ctx=ast.Load()), attr=which, ctx=ast.Load()))
+        ctx.need(want is not None, f'{cname}.{which} is not a plain attribute / property of the type')
         found = []
         for call in pf.calls_in(ms[FROM]):
             f = call.func
-            if isinstance(f, ast.Attribute) and f.attr in (FROM, FROM_NA) and pf.nsrc(f.value) == which:
-                flag = call.args[1] if len(call.args) >= 2 else None
-                for kw in call.keywords:
-                    if kw.arg == '_should_freeze':
-                        flag = kw.value
-                found.append((call, flag))
-        ctx.need(len(found) >= 1, f'{cname}.{FROM}: no parse of {which} found')
-        for idx, (call, flag) in enumerate(found):
-            ctx.check(isinstance(flag, ast.Constant) and flag.value is True, 'R5', f'{F}::{cname}.{FROM}::{which} frozen' + (f'#{idx}' if idx else ''),
-                      f'{which} values become {"set elements" if cname == "tset" else "dict keys"} but are parsed with _should_freeze={pf.nsrc(flag) if flag is not None else "default False"}: '
+            if isinstance(f, ast.Attribute) and f.attr in (FROM, FROM_NA) and _canon_recv(ms, f.value) == want:
+                found.append((call,) + _flag_arg(call))
+        ctx.need(len(found) >= 1, f'{cname}.{FROM}: no parse of self.{which} found')
+        own_flag = _flag_param(ms[FROM])
+        for idx, (call, flag, star) in enumerate(found):
+            frozen = isinstance(flag, ast.Constant) and flag.value is True
+            not_frozen = (flag is None and not star) or (isinstance(flag, ast.Constant) and not flag.value) or (isinstance(flag, ast.Name) and flag.id == own_flag)
+            ctx.need(frozen or not_frozen, f'{cname}.{FROM} (line {call.lineno}): self.{which} is parsed with the freeze flag `{pf.nsrc(flag) if flag is not None else "*args"}`, which is neither True nor a recognised other value')
+            ctx.check(frozen, 'R5', f'{F}::{cname}.{FROM}::self.{which} frozen' + (f'#{idx}' if idx else ''),
+                      f'self.{which} values become {"set elements" if cname == "tset" else "dict keys"} but are parsed with _should_freeze={pf.nsrc(flag) if flag is not None else "default False"}: '
                       f'an array/set/dict/struct-typed one is an unhashable list/dict and the read-back raises TypeError', m.path, call.lineno)
 
 
@@ -484,8 +836,18 @@ def _r5(ctx: Ctx, m: pf.Module, classes: Dict[str, ast.ClassDef]):
 # --------------------------------------------------------------------------------------
 
 
-def _r6(ctx: Ctx, m: pf.Module, classes: Dict[str, ast.ClassDef]):
-    cm = pf.load(CALL_F)
+_CALL_MOD: List[pf.Module] = []
+
+
+def _call_module() -> pf.Module:
+    """call.py with Call.__str__ in normal form (tuple assignments split, same-class helpers inlined, load-chain locals substituted, guards as if/else)"""
+    if not _CALL_MOD:
+        _CALL_MOD.append(N.normalise_module(pf.load(CALL_F), lambda c, f: 'cheap' if (c == 'Call' and f == '__str__') else None))
+    return _CALL_MOD[0]
+
+
+def _r6(ctx: Ctx, m: pf.Module, classes: Dict[str, ast.ClassDef], r10_done: bool = False, r10_failed: bool = False):
+    cm = _call_module()
     s = cm.func('Call.__str__')
     ctx.need('_tcall' in classes, 'anchor vanished: class _tcall')
     ms = W.methods(classes['_tcall'])
@@ -550,8 +912,20 @@ def _r6(ctx: Ctx, m: pf.Module, classes: Dict[str, ast.ClassDef]):
     ctx.need(ph_written is not None, 'Call.__str__: phased diploid template not found')
     if ph_written != phased_sep:
         problems.append(f'phased separator written {ph_written!r} but reader treats {phased_sep!r} as phased')
-    ctx.check(not problems, 'R6', cons, '; '.join(problems) + ': a call rendered by Call.__str__ is parsed back as a different call or fails to parse',
-              m.path, rfn.lineno, detail={'consts': sorted(consts), 'haploid': sorted(hap), 'diploid': sorted(dip)})
+    detail = {'consts': sorted(consts), 'haploid': sorted(hap), 'diploid': sorted(dip)}
+    if not problems:
+        ctx.ok('R6', cons, detail)
+        return
+    # The token tables are read off the reader by shape (comparisons with literals); a reader that spells its tests differently (`x in ('-', '|-')`,
+    # startswith, a table) yields tables that differ without the behaviour differing.  A difference is reported only when R10 - which decides the reader
+    # on every string of the writer's language - has established that some call string is read back wrongly; then the tables say which tokens drifted.
+    if r10_failed:
+        ctx.bad('R6', cons, '; '.join(problems) + ': a call rendered by Call.__str__ is parsed back as a different call or fails to parse', m.path, rfn.lineno, detail)
+    elif r10_done:
+        ctx.ok('R6', cons, {'tables_differ_by_spelling': problems, 'decided_by': 'R10'}, nontrivial=False)
+        ctx.info(f'{F}::_tcall: token tables of writer and reader differ in spelling only ({"; ".join(problems)}); R10 decides every string of the wire language and finds no difference')
+    else:
+        raise AnalysisError(f'{F}::_tcall: token tables of Call.__str__ and the reader differ ({"; ".join(problems)}) but the reader could not be decided on the wire language (R10 declined)')
 
 
 # --------------------------------------------------------------------------------------
@@ -560,7 +934,7 @@ def _r6(ctx: Ctx, m: pf.Module, classes: Dict[str, ast.ClassDef]):
 
 
 def _r10(ctx: Ctx, m: pf.Module, classes: Dict[str, ast.ClassDef]) -> None:
-    cm = pf.load(CALL_F)
+    cm = _call_module()
     ctx.need('_tcall' in classes, 'anchor vanished: class _tcall')
     ms = W.methods(classes['_tcall'])
     ctx.need(TO in ms and FROM in ms, 'anchor vanished: _tcall JSON converters')
@@ -620,14 +994,17 @@ def _r10(ctx: Ctx, m: pf.Module, classes: Dict[str, ast.ClassDef]) -> None:
 
 def _r7(ctx: Ctx, m: pf.Module, classes: Dict[str, ast.ClassDef]):
     ctx.need('tndarray' in classes, 'anchor vanished: class tndarray')
-    ms = W.methods(classes['tndarray'])
+    ms = _eff_methods(m, 'tndarray')
     ctx.need(TO in ms and FROM in ms, 'anchor vanished: tndarray JSON converters')
     wt = _writer_key_table(ms[TO])
     ctx.need(wt is not None and 'data' in wt[0], f'tndarray.{TO}: no JSON object with a data key')
     data = pf.resolve_expr(ms[TO], wt[0]['data'][1])
     worder = None
+    xw = W.param_names(ms[TO])[1]
     for n in ast.walk(data):
         if isinstance(n, ast.Call) and isinstance(n.func, ast.Attribute) and n.func.attr in ('flatten', 'ravel'):
+            recv = pf.resolve_expr(ms[TO], n.func.value)
+            ctx.need(isinstance(recv, ast.Name) and recv.id == xw, f'tndarray.{TO}: flattens `{pf.nsrc(n.func.value)[:60]}`, not the converted array itself (order relative to the value not known)')
             worder = 'C'
             args = list(n.args) + [k.value for k in n.keywords if k.arg == 'order']
             if args:
@@ -635,15 +1012,25 @@ def _r7(ctx: Ctx, m: pf.Module, classes: Dict[str, ast.ClassDef]):
                 worder = args[0].value
     ctx.need(worder is not None, f'tndarray.{TO}: data is not produced by flatten/ravel')
     rorder = None
+    builders = 0
     for n in ast.walk(ms[FROM]):
         if isinstance(n, ast.Call) and pf.dotted(n.func) in ('np.ndarray', 'numpy.ndarray'):
+            builders += 1
             rorder = 'C'
+            ctx.need(len(n.args) <= 1, f'tndarray.{FROM}: np.ndarray with positional arguments beyond the shape (order not read)')
             for k in n.keywords:
                 if k.arg == 'order':
-                    ctx.need(isinstance(k.value, ast.Constant), f'tndarray.{FROM}: non-literal order')
+                    ctx.need(isinstance(k.value, ast.Constant) and isinstance(k.value.value, str), f'tndarray.{FROM}: non-literal order')
                     rorder = k.value.value
+                ctx.need(k.arg not in ('strides', None), f'tndarray.{FROM}: np.ndarray with explicit strides / ** arguments (order not read)')
         elif isinstance(n, ast.Call) and isinstance(n.func, ast.Attribute) and n.func.attr == 'reshape':
-            rorder = rorder or 'C'
+            builders += 1
+            o = [k.value for k in n.keywords if k.arg == 'order']
+            ctx.need(all(isinstance(v, ast.Constant) and isinstance(v.value, str) for v in o), f'tndarray.{FROM}: non-literal reshape order')
+            rorder = o[0].value if o else 'C'
+        elif isinstance(n, ast.Attribute) and n.attr == 'T' or (isinstance(n, ast.Call) and isinstance(n.func, ast.Attribute) and n.func.attr in ('transpose', 'swapaxes')):
+            raise AnalysisError(f'tndarray.{FROM}: the rebuilt array is transposed (`{pf.nsrc(n)[:40]}`): element order not read')
+    ctx.need(builders <= 1, f'tndarray.{FROM}: the array is rebuilt in {builders} places')
     ctx.need(rorder is not None, f'tndarray.{FROM}: array is not rebuilt with np.ndarray(...)/reshape')
     ctx.check(worder.upper() == rorder.upper(), 'R7', f'{F}::tndarray::element order',
               f'writer flattens in {worder!r} order but the reader rebuilds the buffer in {rorder!r} order: every non-symmetric n-d array (n >= 2) comes back transposed/scrambled',
@@ -671,8 +1058,18 @@ class tprobe(HailType):
 
 def _r8(ctx: Ctx, m: pf.Module, classes: Dict[str, ast.ClassDef]):
     is_codec = lambda n: n in (TO, FROM, TO_NA, FROM_NA, '_to_json', '_from_json')
+    # converters inherited from a mixin (a module-level base that is not itself a HailType) are converters of the types that mix it in
+    top = {c.name: c for c in m.tree.body if isinstance(c, ast.ClassDef)}
+    classes = dict(classes)
+    for c in list(classes.values()):
+        stack = [pf.dotted(b) for b in c.bases]
+        while stack:
+            b = stack.pop()
+            if b in top and b != 'HailType' and b not in classes:
+                classes[b] = top[b]
+                stack += [pf.dotted(x) for x in top[b].bases]
     findings, n_methods = W.codec_state(m, classes, is_codec)
-    ctx.need(n_methods >= 30, f'expected >= 30 JSON converter methods, found {n_methods}')
+    ctx.need(n_methods >= 26, f'expected >= 26 JSON converter methods, found {n_methods}')
     flagged = set()
     undecided = []
     for f in findings:
@@ -1045,7 +1442,8 @@ def run(ctx: Ctx) -> None:
     ctx.explanation = ('AST-level agreement tables between the JSON writer and reader of every HailType subclass in expr/types.py (override pairing, key sets, '
                        'component converters, constructor roles, float tokens, null handling, freeze flags, call tokens, ndarray order); no repository code is run.')
     ctx.rule('R1', 'a HailType subclass overrides _convert_to_json[_na] iff it overrides _convert_from_json[_na] (encoding-only wrappers exempt)', 40)
-    ctx.rule('R2', 'JSON object keys written == keys read, and each key is converted/parsed through the same component type', 13)
+    ctx.rule('R2', 'JSON object keys written == keys read, and each key is converted/parsed through the same component type; member names of emitted objects are literals or '
+                   'field names of the type, never (possibly missing) components of the value', 20)
     ctx.rule('R3', 'each wire key is filled from attribute A and fed to constructor parameter P with store(P) == source(A); parameters of the type carried by the value (reference genome, point type) are passed from self (Locus, Interval)', 7)
     ctx.rule('R4', 'float writer emits for NaN/inf exactly strings the reader\'s float() parses; finite values pass through', 2)
     ctx.rule('R5', 'components are converted through the missing-aware _na variants on both sides; base _na wrappers map None<->None; '
@@ -1053,7 +1451,7 @@ def run(ctx: Ctx) -> None:
     ctx.rule('R6', 'markers, prefix and separators of Call.__str__ are the ones _tcall._convert_from_json tests', 1)
     ctx.rule('R7', 'ndarray JSON: flatten order of the writer == rebuild order of the reader', 1)
     ctx.rule('R8', 'purity: no JSON converter reads back state that outlives the call unless it is a memo keyed by every input of the remembered value '
-                   '(type parameters such as self.reference_genome included)', 30)
+                   '(type parameters such as self.reference_genome included)', 26)
     ctx.rule('R9', 'on every feasible path of a container converter each component converter is applied, or the skipped converter is the identity for every '
                    'class the path\'s type guards admit (float32/float64 are not: nan/inf travel as strings)', 15)
     ctx.rule('R10', 'for each (ploidy, phased) class, every string Call.__str__ can emit (regular language, numerals 0|[1-9][0-9]*) is read back by '
@@ -1062,14 +1460,21 @@ def run(ctx: Ctx) -> None:
                'sorted by Call.__init__, so either order of the two numerals rebuilds the same call')
     ctx.assume('float(str(x)) == x for nan/inf/-inf and str(x) of a non-finite float is one of nan, inf, -inf (CPython)')
     ctx.assume('every component position of a container (element, key, value, field, interval endpoint) may hold a missing value')
-    m = pf.load(F)
-    classes = W.hail_type_classes(m)
-    ctx.need(len(classes) >= 20, f'expected >= 20 HailType subclasses in {F}, found {len(classes)}')
+    m_raw = pf.load(F)
+    raw_classes = W.hail_type_classes(m_raw)
+    ctx.need(len(raw_classes) >= 20, f'expected >= 20 HailType subclasses in {F}, found {len(raw_classes)}')
     ctx.unit('files', 3)
-    ctx.unit('classes', len(classes))
-    _r8(ctx, m, classes)   # first: a history-dependent decoder is reported even when a later, shape-dependent rule declines
+    ctx.unit('classes', len(raw_classes))
+    _r8(ctx, m_raw, raw_classes)   # first: a history-dependent decoder is reported even when a later, shape-dependent rule declines
+    # every other rule reads the converters in normal form (engines/c32norm.py): same-module helpers inlined (never another converter: those are dispatched on the
+    # component's class), locals substituted, accumulation loops as comprehensions, guard clauses / conditional expressions as if/else.  The JSON converters have no
+    # stream, their sub-expressions are functions of their arguments: every single-definition local may be substituted; everywhere else only load chains are.
+    is_conv = lambda n: n in JSON_METHODS or n.startswith('_convert_') or n in ('_to_encoding', '_from_encoding')
+    m = N.normalise_module(m_raw, lambda c, f: ('all' if f in JSON_METHODS else 'cheap') if c is not None else None, exclude=is_conv)
+    classes = W.hail_type_classes(m)
     _r9(ctx, m, classes)
     _r1(ctx, m, classes)
+    _r2_member_names(ctx, m, classes)
     nt = _r2_r3(ctx, m, classes)
     ctx.need(nt >= 5, f'expected >= 5 classes with JSON object layouts (ndarray, dict, struct, locus, interval), found {nt}')
     ctx.unit('key_tables', nt)
@@ -1085,8 +1490,9 @@ def run(ctx: Ctx) -> None:
         r10_done = True
     except AnalysisError as e:
         deferred.append(f'R10: {e}')
+    r10_failed = any(i['rule'] == 'R10' and not i['holds'] for i in ctx.instances)
     try:
-        _r6(ctx, m, classes)
+        _r6(ctx, m, classes, r10_done, r10_failed)
     except AnalysisError as e:
         if r10_done:
             # the token tables are a coarser view of what R10 has just decided for every string of every class
